@@ -3,7 +3,7 @@
 From Coq Require Import List Arith Lia ZArith NArith Bool Sorted Permutation.
 From Coq.Strings Require Import Byte.
 Import ListNotations.
-From SV Require Import Text C09_Model C09_Lemmas C09_Extract C09_Record C09_Unterm C09_Box C09_Scan C09_Parse C09_Get C09_GetAll C09_Header C09_Store C09_Sort.
+From SV Require Import Text C09_Model C09_Lemmas C09_Extract C09_Record C09_Unterm C09_Box C09_Scan C09_Parse C09_Get C09_GetAll C09_Header C09_Store C09_Sort C09_Layout.
 
 (* ------------------------------------------------------------------ small facts *)
 Lemma index_of_some x : forall l k, index_of x l = Some k -> nth_error l k = Some x.
@@ -402,4 +402,48 @@ Proof.
   - split; [repeat constructor; cbn; intuition discriminate|]. split.
     { repeat constructor; cbn; try discriminate. }
     split; [repeat constructor|]. split; [reflexivity|]. split; [reflexivity|]. vm_compute. reflexivity.
+Qed.
+
+(* ------------------------------------------------------------------ the index file of every reachable state parses back *)
+Lemma id_char_nosp c : id_char c = true -> negb (byte_eqb c SP) = true.
+Proof. destruct c; vm_compute; intros H; try reflexivity; discriminate. Qed.
+
+Lemma wf_id_nosp s : wf_id s = true -> no_byte SP s = true /\ s <> [].
+Proof.
+  unfold wf_id. intros H. apply andb_prop in H. destruct H as [H1 H2]. split.
+  - unfold no_byte. apply forallb_forall. intros c Hc. rewrite forallb_forall in H2. exact (id_char_nosp c (H2 c Hc)).
+  - intros ->. discriminate.
+Qed.
+
+Lemma prov_id mode env files e : Forall (fun nf => wf_gfile mode (snd nf)) env -> prov env files e ->
+  no_byte SP (e_id e) = true /\ e_id e <> [].
+Proof.
+  intros Hwf [nm [f [_ [If He]]]]. destruct (expected_in _ _ _ _ _ He) as [rs1 [r [rs2 [Er Ee]]]].
+  rewrite Forall_forall in Hwf. pose proof (Hwf _ If) as [_ Hrs]. cbn [g_strip fst snd] in Hrs. rewrite Er in Hrs.
+  rewrite Forall_forall in Hrs.
+  assert (Hr: wf_rec mode (length (nl_of (g_crlf f))) r = true) by (apply Hrs, in_or_app; right; left; reflexivity).
+  rewrite Ee. cbn [e_id]. apply wf_id_nosp. exact (proj1 (wf_rec_id_desc _ _ _ Hr)).
+Qed.
+
+(* reopening at the byte level, for every state a history can reach: the bytes of the binary index file (as write() lays them
+   out) parse back -- read_header() gives exactly the stored header, read() exactly the records of the state *)
+Theorem hist_file_roundtrip mode hs path env s h recs :
+  Forall (fun nf => wf_gfile mode (snd nf)) env -> inv mode path env s -> st_bin s = Some (h, recs) ->
+  (N.of_nat (length (hs ++ h)) + 22 < 65536)%N -> sizes_small (bsf_sizes recs) ->
+  exists f, bsf_file (hs ++ h) recs = Some f /\ bsf_parse f = Some (hs ++ h, bsf_sizes recs, recs).
+Proof.
+  intros Hwf [_ [_ [_ [Ib _]]]] B Hh Hs. destruct (Ib _ _ B) as [_ [Ss Fp]].
+  destruct (file_roundtrip (hs ++ h) recs Hh Hs) as [f [E P]].
+  - eapply Forall_impl; [|exact Fp]. intros e Pe. exact (prov_id mode env _ e Hwf Pe).
+  - exists f. split; [exact E|]. rewrite P, (sort_idem recs Ss). reflexivity.
+Qed.
+
+Lemma layout_witness :
+  let data := [Entry (bs "b"%bs) 0 0 300; Entry (bs "ab"%bs) 1 4000 0; Entry (bs "a"%bs) 0 4 20] in
+  (N.of_nat (length ex_hs) + 22 < 65536)%N /\ sizes_small (bsf_sizes data) /\ bsf_sizes data = (2, 1, 2, 2)
+  /\ Forall (fun e => no_byte SP (e_id e) = true /\ e_id e <> []) data
+  /\ option_map (@length byte) (bsf_file ex_hs data) = Some (8 + length ex_hs + 14 + 3 * 7).
+Proof.
+  cbv zeta. split; [reflexivity|]. split; [vm_compute; repeat split; reflexivity|]. split; [reflexivity|].
+  split; [repeat constructor; discriminate|]. vm_compute. reflexivity.
 Qed.
